@@ -42,6 +42,9 @@ def gen_cases(tier):
     if tier == "thorough":
         for t in A.trees(5, ["a", "b", "f(x, 2)"], OPS):
             add(("core", True, t))
+    else:  # five leaves over two atoms and the three operators that create and remove repeated terms
+        for t in A.trees(5, ["a", "f(x, 2)"], ["*", "-", ":"]):
+            add(("core", True, t))
     # power wrappers: (tree)**n at the root and as the left/right operand of one more operator
     pw_leaves = 3 if tier == "quick" else 4
     atoms_pw = ["a", "b", "f(x, 2)"]
